@@ -151,7 +151,13 @@ pub struct FuncDecl {
 pub enum Decl {
     Comp(Comp),
     Enum(EnumDecl),
-    Typedef { name: String, ty: Ty },
+    Typedef {
+        name: String,
+        ty: Ty,
+        /// `typedef T name __attribute__((aligned(N)))` (scalars and pointers only)
+        #[serde(default)]
+        aligned: Option<u32>,
+    },
     Func(FuncDecl),
     Var { name: String, ty: Ty, is_const: bool },
     Macro { name: String, body: String },
@@ -416,7 +422,10 @@ pub fn render_decl(p: &Program, d: &Decl) -> String {
             s.push_str(";\n");
             s
         }
-        Decl::Typedef { name, ty } => format!("typedef {};\n", declare(p, ty, name)),
+        Decl::Typedef { name, ty, aligned } => match aligned {
+            Some(a) => format!("typedef {} __attribute__((aligned({a})));\n", declare(p, ty, name)),
+            None => format!("typedef {};\n", declare(p, ty, name)),
+        },
         Decl::Func(f) => {
             let mut ps: Vec<String> = f.params.iter().map(|(n, t)| declare(p, t, n)).collect();
             if f.variadic && !ps.is_empty() {
@@ -845,13 +854,22 @@ impl Program {
         for i in 0..n {
             aligned[i] = match &self.decls[i] {
                 Decl::Comp(c) => comp_aligned(c, &aligned),
-                Decl::Typedef { ty, .. } => {
+                Decl::Typedef { ty, aligned: a, .. } => {
                     let mut r = BTreeSet::new();
                     ty.named_refs(&mut r, true);
-                    r.iter().any(|k| aligned[*k])
+                    a.is_some() || r.iter().any(|k| aligned[*k])
                 }
                 _ => false,
             };
+        }
+        // known finding: an aligned typedef whose alignment is at most 8 is not reproduced
+        for d in self.decls.iter_mut() {
+            if let Decl::Typedef { aligned: a, .. } = d {
+                if matches!(a, Some(x) if *x <= 8) {
+                    *a = None;
+                    removed += 1;
+                }
+            }
         }
         fn unpack_nested(c: &mut Comp, removed: &mut usize) {
             for f in c.fields.iter_mut() {
@@ -1029,6 +1047,68 @@ impl Program {
             if let Decl::Comp(c) = d {
                 let mut scope = BTreeSet::new();
                 uniq(c, &mut scope, &mut counter);
+            }
+        }
+        // (3) aligned typedefs: scalars and pointers only, never an array element (clang rejects
+        // an element alignment larger than the element), not even through an alias chain
+        let mut elem: BTreeSet<usize> = BTreeSet::new();
+        fn elems(t: &Ty, out: &mut BTreeSet<usize>) {
+            match t {
+                Ty::Array { of, .. } => {
+                    let mut inner: &Ty = of;
+                    while let Ty::Array { of, .. } = inner {
+                        inner = of;
+                    }
+                    if let Ty::Named(k) = inner {
+                        out.insert(*k);
+                    }
+                    elems(inner, out);
+                }
+                Ty::Ptr { to, .. } => elems(to, out),
+                Ty::FnPtr { ret, params, .. } => {
+                    elems(ret, out);
+                    for p in params {
+                        elems(p, out);
+                    }
+                }
+                _ => {}
+            }
+        }
+        fn comp_elems(c: &Comp, out: &mut BTreeSet<usize>) {
+            for f in &c.fields {
+                match &f.ty {
+                    FieldTy::Ty(t) => elems(t, out),
+                    FieldTy::Inline(ic) => comp_elems(ic, out),
+                }
+            }
+        }
+        for d in &self.decls {
+            match d {
+                Decl::Comp(c) => comp_elems(c, &mut elem),
+                Decl::Typedef { ty, .. } | Decl::Var { ty, .. } => elems(ty, &mut elem),
+                Decl::Func(f) => {
+                    elems(&f.ret, &mut elem);
+                    for (_, t) in &f.params {
+                        elems(t, &mut elem);
+                    }
+                }
+                _ => {}
+            }
+        }
+        // close over alias chains (later typedefs name earlier ones)
+        for i in (0..self.decls.len()).rev() {
+            if elem.contains(&i) {
+                if let Decl::Typedef { ty: Ty::Named(k), .. } = &self.decls[i] {
+                    elem.insert(*k);
+                }
+            }
+        }
+        for (i, d) in self.decls.iter_mut().enumerate() {
+            if let Decl::Typedef { ty, aligned, .. } = d {
+                let scalar = matches!(ty, Ty::Prim(_) | Ty::Ptr { .. });
+                if !scalar || elem.contains(&i) {
+                    *aligned = None;
+                }
             }
         }
     }
@@ -1221,7 +1301,12 @@ pub fn decl_strategy(cfg: &GenCfg, idx: usize, n: usize) -> BoxedStrategy<Decl> 
     if cfg.enums {
         choices.push((3, enum_strategy(idx).prop_map(Decl::Enum).boxed()));
     }
-    choices.push((3, (ty_strategy(cfg, n), 0u32..1000).prop_map(move |(ty, s)| Decl::Typedef { name: format!("T{idx}_{s}"), ty }).boxed()));
+    choices.push((
+        3,
+        (ty_strategy(cfg, n), 0u32..1000, prop_oneof![12 => Just(None), 3 => prop_oneof![Just(16u32), Just(32), Just(64)].prop_map(Some), 1 => Just(Some(8u32))])
+            .prop_map(move |(ty, s, aligned)| Decl::Typedef { name: format!("T{idx}_{s}"), ty, aligned })
+            .boxed(),
+    ));
     if cfg.opaque_fwd {
         choices.push((1, (0u32..1000).prop_map(move |s| Decl::Opaque { tag: format!("Fwd{idx}_{s}") }).boxed()));
     }
